@@ -195,3 +195,251 @@ func (wg *WaitGroup) Wait() {
 		return 1
 	}, Do: func(int) { mc.RaceAcquire(unsafe.Pointer(wg)) }})
 }
+
+// Pool models sync.Pool deterministically: Get returns the most recently Put item
+// (maximal reuse, which is what exposes aliasing bugs), or New() when empty.
+type Pool struct {
+	New   func() any
+	items []any
+}
+
+func (p *Pool) Get() any {
+	if mc.Killing() {
+		if p.New != nil {
+			return p.New()
+		}
+		return nil
+	}
+	var x any
+	got := false
+	mc.Point(&mc.Op{Kind: "pool.Get", Obj: p, Alts: func() int { return 1 }, Do: func(int) {
+		if n := len(p.items); n > 0 {
+			x, got = p.items[n-1], true
+			p.items = p.items[:n-1]
+			mc.RaceAcquire(unsafe.Pointer(p))
+		}
+	}})
+	if !got && p.New != nil {
+		return p.New()
+	}
+	return x
+}
+
+func (p *Pool) Put(x any) {
+	if mc.Killing() || x == nil {
+		return
+	}
+	mc.Point(&mc.Op{Kind: "pool.Put", Obj: p, Alts: func() int { return 1 }, Do: func(int) {
+		mc.RaceRelease(unsafe.Pointer(p))
+		p.items = append(p.items, x)
+	}})
+}
+
+// Map models sync.Map with a slice of entries (every method is one visible operation).
+type Map struct {
+	keys []any
+	vals []any
+}
+
+func (m *Map) find(k any) int {
+	for i, x := range m.keys {
+		if x == k {
+			return i
+		}
+	}
+	return -1
+}
+
+func (m *Map) op(kind string, f func()) {
+	if mc.Killing() {
+		f()
+		return
+	}
+	mc.Point(&mc.Op{Kind: kind, Obj: m, Alts: func() int { return 1 }, Do: func(int) {
+		mc.RaceAcquire(unsafe.Pointer(m))
+		f()
+		mc.RaceRelease(unsafe.Pointer(m))
+	}})
+}
+
+func (m *Map) Load(k any) (v any, ok bool) {
+	m.op("map.Load", func() {
+		if i := m.find(k); i >= 0 {
+			v, ok = m.vals[i], true
+		}
+	})
+	return
+}
+
+func (m *Map) Store(k, v any) {
+	m.op("map.Store", func() {
+		if i := m.find(k); i >= 0 {
+			m.vals[i] = v
+		} else {
+			m.keys, m.vals = append(m.keys, k), append(m.vals, v)
+		}
+	})
+}
+
+func (m *Map) LoadOrStore(k, v any) (actual any, loaded bool) {
+	m.op("map.LoadOrStore", func() {
+		if i := m.find(k); i >= 0 {
+			actual, loaded = m.vals[i], true
+		} else {
+			m.keys, m.vals = append(m.keys, k), append(m.vals, v)
+			actual = v
+		}
+	})
+	return
+}
+
+func (m *Map) LoadAndDelete(k any) (v any, loaded bool) {
+	m.op("map.LoadAndDelete", func() {
+		if i := m.find(k); i >= 0 {
+			v, loaded = m.vals[i], true
+			m.keys = append(m.keys[:i:i], m.keys[i+1:]...)
+			m.vals = append(m.vals[:i:i], m.vals[i+1:]...)
+		}
+	})
+	return
+}
+
+func (m *Map) Delete(k any) { m.LoadAndDelete(k) }
+
+func (m *Map) Swap(k, v any) (prev any, loaded bool) {
+	m.op("map.Swap", func() {
+		if i := m.find(k); i >= 0 {
+			prev, loaded = m.vals[i], true
+			m.vals[i] = v
+		} else {
+			m.keys, m.vals = append(m.keys, k), append(m.vals, v)
+		}
+	})
+	return
+}
+
+func (m *Map) CompareAndSwap(k, old, new any) (ok bool) {
+	m.op("map.CAS", func() {
+		if i := m.find(k); i >= 0 && m.vals[i] == old {
+			m.vals[i], ok = new, true
+		}
+	})
+	return
+}
+
+func (m *Map) CompareAndDelete(k, old any) (ok bool) {
+	m.op("map.CAD", func() {
+		if i := m.find(k); i >= 0 && m.vals[i] == old {
+			m.keys = append(m.keys[:i:i], m.keys[i+1:]...)
+			m.vals = append(m.vals[:i:i], m.vals[i+1:]...)
+			ok = true
+		}
+	})
+	return
+}
+
+func (m *Map) Range(f func(k, v any) bool) {
+	var ks, vs []any
+	m.op("map.Range", func() {
+		ks, vs = append(ks, m.keys...), append(vs, m.vals...)
+	})
+	for i := range ks {
+		if !f(ks[i], vs[i]) {
+			return
+		}
+	}
+}
+
+// Cond models sync.Cond.
+type Cond struct {
+	L       Locker
+	waiters int
+	tickets int
+}
+
+func NewCond(l Locker) *Cond { return &Cond{L: l} }
+
+func (c *Cond) Wait() {
+	if mc.Killing() {
+		return
+	}
+	mc.Point(&mc.Op{Kind: "cond.enqueue", Obj: c, Alts: func() int { return 1 }, Do: func(int) { c.waiters++ }})
+	c.L.Unlock()
+	mc.Point(&mc.Op{Kind: "cond.Wait", Obj: c, Alts: func() int {
+		if c.tickets > 0 {
+			return 1
+		}
+		return 0
+	}, Do: func(int) { c.tickets--; mc.RaceAcquire(unsafe.Pointer(c)) }})
+	c.L.Lock()
+}
+
+func (c *Cond) Signal() {
+	if mc.Killing() {
+		return
+	}
+	mc.Point(&mc.Op{Kind: "cond.Signal", Obj: c, Alts: func() int { return 1 }, Do: func(int) {
+		mc.RaceRelease(unsafe.Pointer(c))
+		if c.waiters > 0 {
+			c.waiters--
+			c.tickets++
+		}
+	}})
+}
+
+func (c *Cond) Broadcast() {
+	if mc.Killing() {
+		return
+	}
+	mc.Point(&mc.Op{Kind: "cond.Broadcast", Obj: c, Alts: func() int { return 1 }, Do: func(int) {
+		mc.RaceRelease(unsafe.Pointer(c))
+		c.tickets += c.waiters
+		c.waiters = 0
+	}})
+}
+
+// OnceFunc / OnceValue mirror the helpers added in go1.21.
+func OnceFunc(f func()) func() {
+	var o Once
+	return func() { o.Do(f) }
+}
+
+func OnceValue[T any](f func() T) func() T {
+	var o Once
+	var v T
+	return func() T {
+		o.Do(func() { v = f() })
+		return v
+	}
+}
+
+func (rw *RWMutex) TryRLock() bool {
+	if mc.Killing() {
+		return false
+	}
+	ok := false
+	mc.Point(&mc.Op{Kind: "rw.TryRLock", Obj: rw, Alts: func() int { return 1 }, Do: func(int) {
+		if !rw.announced {
+			rw.readers++
+			ok = true
+			mc.RaceAcquire(unsafe.Pointer(rw))
+		}
+	}})
+	return ok
+}
+
+// RLocker returns a Locker whose Lock/Unlock call RLock/RUnlock.
+func (rw *RWMutex) RLocker() Locker { return (*rlocker)(rw) }
+
+type rlocker RWMutex
+
+func (r *rlocker) Lock()   { (*RWMutex)(r).RLock() }
+func (r *rlocker) Unlock() { (*RWMutex)(r).RUnlock() }
+
+func (wg *WaitGroup) Go(f func()) {
+	wg.Add(1)
+	mc.Go(func() {
+		defer wg.Done()
+		f()
+	})
+}
